@@ -1330,9 +1330,11 @@ def c15_node(name, dm, cases, peers, child_xml=None, forward_init=False):
         elif form == "sid":
             attrs += " targetexpr=\"'#_scxml_' + peer%s\"" % arg
         elif form == "parent":
-            attrs += ' target="#_parent"'
+            attrs += ' target="#_parent"' if k % 2 else " targetexpr=\"'#_parent'\""
         elif form == "invokeid":
-            attrs += ' target="#_%s"' % arg
+            attrs += ' target="#_%s"' % arg if k % 2 else " targetexpr=\"'#_%s'\"" % arg
+        if form != "internal" and k % 3 == 1:
+            attrs += ' delay="6ms"'          # the route of a delayed send is the same
         ts.append('<transition event="fire.%d"><send%s>%s</send></transition>' % (k, attrs, body))
     if forward_init:
         ts.append('<transition event="kidfire"><send target="#_kid" eventexpr="\'fire.\' + _event.data.k"/></transition>')
@@ -2437,7 +2439,7 @@ def c17(tier, seed):
 # ---------------------------------------------------------------------------------------------
 OPERANDS = ["0", "1", "2", "3", "7", "10", "-1", "-4", "2.5", "0.5", "1.0", "-1.5", "'a'", "'b'", "'ab'", "''", "true",
             "false", "null", "[1,2]", "[]", "['a']", "{'a':1}", "{'b':2}", "{'a':3}", "9223372036854775807",
-            "-9223372036854775808", "nosuchvar"]
+            "-9223372036854775808", "nosuchvar", "{'a':5,'b':2}"]
 ALL_OPS = ["*", "/", ":", "%", "+", "-", "<", "<=", ">", ">=", "==", "!=", "&", "|"]
 
 
@@ -2595,11 +2597,11 @@ def c10(tier, seed):
     fams = [("k1", 1, OPERANDS, ALL_OPS, (0, 1, 2))]
     if tier == "quick":
         fams.append(("k2num", 2, ["1", "2", "3", "7", "10", "-4", "2.5"], ["*", "/", "%", "+", "-", "<", "==", ":"], (0,)))
-        fams.append(("k2mix", 2, ["1", "2.5", "'a'", "'ab'", "true", "[1,2]", "{'a':1}", "{'a':3}"], ["+", "==", "!=", "<", "&", "|", "*"], (0, 1)))
+        fams.append(("k2mix", 2, ["1", "2.5", "'a'", "'ab'", "true", "[1,2]", "{'a':1}", "{'a':3}", "{'a':5,'b':2}"], ["+", "==", "!=", "<", "&", "|", "*"], (0, 1)))
         var_frac = 0.15
     else:
         fams.append(("k2num", 2, ["0", "1", "2", "3", "7", "10", "-1", "-4", "2.5", "0.5", "-1.5"], ALL_OPS, (0,)))
-        fams.append(("k2mix", 2, ["1", "2.5", "'a'", "'ab'", "''", "true", "false", "null", "[1,2]", "[]", "{'a':1}", "{'b':2}", "{'a':3}", "nosuchvar"],
+        fams.append(("k2mix", 2, ["1", "2.5", "'a'", "'ab'", "''", "true", "false", "null", "[1,2]", "[]", "{'a':1}", "{'b':2}", "{'a':3}", "{'a':5,'b':2}", "nosuchvar"],
                      ["+", "-", "==", "!=", "<", ">=", "&", "|", "*"], (0, 1, 2, 3)))
         fams.append(("k3", 3, ["2", "3", "7", "10", "2.5"], ["*", "/", "%", "+", "-", "<", "=="], (0,)))
         fams.append(("k2big", 2, ["9223372036854775807", "-9223372036854775808", "1", "2", "0", "-1"], ["+", "-", "*", "<", "=="], (0,)))
